@@ -40,8 +40,8 @@ type c17cliOutcome struct {
 }
 
 func c17cliConfigs(tier string) []c17cliCfg {
-	mixed := map[int]bool{2: true, 4: true}    // R1 private, R2 public, R3 private, destination public
-	tail := map[int]bool{1: true, 2: true}     // R1, R2 public, R3 and the destination private
+	mixed := map[int]bool{2: true, 4: true} // R1 private, R2 public, R3 private, destination public
+	tail := map[int]bool{1: true, 2: true}  // R1, R2 public, R3 and the destination private
 	allpub := map[int]bool{1: true, 2: true, 3: true, 4: true}
 	cfgs := []c17cliCfg{
 		{"icmp4-mixed", 3, mixed, false, []string{"-P", "icmp"}},
